@@ -72,6 +72,8 @@ type shardCtl struct {
 	model  *refDB
 	notificationsEnabled bool
 	onFold func(e *proto.LogEntry) // called for every committed entry folded into the model
+	notifChooser func(term int64) bool // per-term choice of the EnableNotifications option (nil: always on)
+	termNotif    map[int64]bool
 }
 
 func newShardCtl(w *World, node *SimNode) *shardCtl {
@@ -88,6 +90,13 @@ func (c *shardCtl) client() proto.OxiaClientClient {
 // elect makes the node leader of the shard with RF=1 in a new term.
 func (c *shardCtl) elect() error {
 	c.term++
+	if c.notifChooser != nil {
+		c.notificationsEnabled = c.notifChooser(c.term)
+	}
+	if c.termNotif == nil {
+		c.termNotif = map[int64]bool{}
+	}
+	c.termNotif[c.term] = c.notificationsEnabled
 	ctx, cancel := context.WithTimeout(context.Background(), 60*time.Second)
 	defer cancel()
 	_, err := c.coord().NewTerm(ctx, &proto.NewTermRequest{Namespace: c.ns, Shard: c.shard, Term: c.term,
@@ -261,6 +270,9 @@ func (c *shardCtl) foldNew() (*proto.WriteResponse, []refPutOutcome, error) {
 		ws, err := decodeEntry(e)
 		if err != nil {
 			return nil, nil, err
+		}
+		if en, ok := c.termNotif[e.Term]; ok {
+			c.model.NotificationsEnabled = en // the option of the term the entry was written in
 		}
 		for _, wr := range ws {
 			last, lastOut = c.model.Apply(wr, e.Offset, e.Timestamp)
